@@ -39,7 +39,7 @@ func init() {
 	props["C06"] = &prop{gen: genC06, eval: evalServerSub, timeout: 60 * time.Second}
 }
 
-const labWait = 8 * time.Second      // completion of a step that must happen
+const labWait = 8 * time.Second          // completion of a step that must happen
 const labBlocked = 80 * time.Millisecond // how long "blocked" is observed before it is reported
 
 type labDgram struct {
@@ -110,26 +110,26 @@ type labTask struct {
 }
 
 type lab struct {
-	mu      sync.Mutex
-	srv     *radius.PacketServer
-	conns   []*labConn
-	secrets map[string][]byte // peer -> secret ("" = empty, missing = error)
-	serveParked  map[int]chan struct{}
-	serveRet     map[int]chan string
-	downParked   map[int]chan struct{}
-	downRet      map[int]chan string
-	downCancel   map[int]context.CancelFunc
-	tasks        []*labTask
-	cur          *labTask
-	askCh        chan int    // secret source asked: task index
-	doneCh       chan struct{} // dgram.done hook
-	hookCh       chan string   // serve.registered / shutdown.beforeWait arrivals
-	hookGo       chan struct{}
-	writes       []string
-	serverCtx    context.Context
-	panics       int32
-	seq          int32
-	events       []string
+	mu          sync.Mutex
+	srv         *radius.PacketServer
+	conns       []*labConn
+	secrets     map[string][]byte // peer -> secret ("" = empty, missing = error)
+	serveParked map[int]chan struct{}
+	serveRet    map[int]chan string
+	downParked  map[int]chan struct{}
+	downRet     map[int]chan string
+	downCancel  map[int]context.CancelFunc
+	tasks       []*labTask
+	cur         *labTask
+	askCh       chan int      // secret source asked: task index
+	doneCh      chan struct{} // dgram.done hook
+	hookCh      chan string   // serve.registered / shutdown.beforeWait arrivals
+	hookGo      chan struct{}
+	writes      []string
+	serverCtx   context.Context
+	panics      int32
+	seq         int32
+	events      []string
 }
 
 func (l *lab) note(s string) {
@@ -355,7 +355,7 @@ func runServerScenario(skipVerify bool, secretSpec string, cmds []string, w *os.
 				ol.add("S=parked")
 			case r := <-ret:
 				serveReturned(i, r)
-				ol.add("S="+r)
+				ol.add("S=" + r)
 			case <-time.After(labWait):
 				ol.add("S=HANG")
 				return strings.Join(ol.toks, " ")
@@ -374,7 +374,7 @@ func runServerScenario(skipVerify bool, secretSpec string, cmds []string, w *os.
 				ol.add("s=reading")
 			case r := <-l.serveRet[i]:
 				serveReturned(i, r)
-				ol.add("s="+r)
+				ol.add("s=" + r)
 			case <-time.After(labWait):
 				ol.add("s=HANG")
 				return strings.Join(ol.toks, " ")
@@ -432,7 +432,7 @@ func runServerScenario(skipVerify bool, secretSpec string, cmds []string, w *os.
 			case s := <-tk.started:
 				taskState[t] = "handler"
 				reqWire[t] = pendingDgram[t]
-				ol.add("d=handler:"+s)
+				ol.add("d=handler:" + s)
 			case <-l.doneCh:
 				taskState[t] = "done"
 				ol.add("d=dropped")
@@ -498,7 +498,7 @@ func runServerScenario(skipVerify bool, secretSpec string, cmds []string, w *os.
 				ol.add("X=parked")
 			case r := <-ret:
 				downState[j] = "returned:" + r
-				ol.add("X="+r)
+				ol.add("X=" + r)
 			case <-time.After(labWait):
 				ol.add("X=HANG")
 				return strings.Join(ol.toks, " ")
@@ -524,11 +524,11 @@ func runServerScenario(skipVerify bool, secretSpec string, cmds []string, w *os.
 			j := atoi(arg)
 			switch {
 			case strings.HasPrefix(downState[j], "returned:"):
-				ol.add("W="+strings.TrimPrefix(downState[j], "returned:"))
+				ol.add("W=" + strings.TrimPrefix(downState[j], "returned:"))
 			case downState[j] == "waiting":
 				if r, ok := waitStr(l.downRet[j], labBlocked); ok {
 					downState[j] = "returned:" + r
-					ol.add("W="+r)
+					ol.add("W=" + r)
 				} else {
 					ol.add("W=blocked")
 				}
@@ -730,7 +730,7 @@ func runServerScenario(skipVerify bool, secretSpec string, cmds []string, w *os.
 			if stuck == "" {
 				ol.add("Z=clean")
 			} else {
-				ol.add("Z=stuck:"+strings.TrimPrefix(stuck, ","))
+				ol.add("Z=stuck:" + strings.TrimPrefix(stuck, ","))
 			}
 		default:
 			return "BAD-CASE"
